@@ -71,6 +71,17 @@ def classify(r: R, qual: str, site: tuple, noderole: Set[int]) -> tuple:
         return ("NODE", f"the divisor `{seg(div, 40)}` is the node parameter `{p}` itself (no subtraction): the interval contract allows it to be 0")
     if isinstance(div, ast.BinOp) and isinstance(div.op, ast.Sub):
         return ("difference", "")
+    # a single knot value (no difference): 0 is a legal knot, and an interval may end at 0
+    def knot_value(e) -> bool:
+        return isinstance(e, ast.Subscript) and isinstance(e.value, ast.Name) and ("knot" in e.value.id.lower()) and not isinstance(e.slice, ast.Slice)
+
+    reaching = div
+    if isinstance(div, ast.Name):
+        before = [s for s in ast.walk(ctx.fi.node) if isinstance(s, ast.Assign) and any(isinstance(t, ast.Name) and t.id == div.id for t in s.targets) and s.lineno < node.lineno and not any(x is node for x in ast.walk(s))]
+        if before:
+            reaching = max(before, key=lambda s: s.lineno).value
+    if knot_value(reaching):
+        return ("NODE", f"the divisor `{seg(div, 40)}` is the knot value `{seg(reaching, 40)}` itself (no difference of knots): a knot vector may contain 0 / end at 0")
     if isinstance(div, ast.Name):
         # a name assigned only from differences
         asg = [s for s in ast.walk(ctx.fi.node) if isinstance(s, ast.Assign) and any(isinstance(t, ast.Name) and t.id == div.id for t in s.targets)]
